@@ -14,7 +14,7 @@ func init() {
 
 var srcC18d = []*g2lTarget{
 	{
-		file: "signer/plugin.go", recv: "pluginPrimitiveSigner", fn: "Sign", leanName: "pluginPrimitiveSigner.Sign",
+		file: "signer/plugin.go", recv: "pluginPrimitiveSigner", fn: "Sign", leanName: "pluginPrimitiveSigner.Sign", recvName: "s",
 		params:  "(s : pluginPrimitiveSigner) (payload : Bytes)",
 		ret:     "Option Bytes × Option (List Cert) × Option GoLite.Err",
 		retOpt:  []bool{true, true, true},
